@@ -87,54 +87,54 @@ pub fn remove_leftovers(tag: &str, pid: i32) {
 // reference model
 
 #[derive(Clone, Debug)]
-struct MConn {
-    q: VecDeque<u64>,
-    cap: usize,
+pub struct MConn {
+    pub q: VecDeque<u64>,
+    pub cap: usize,
 }
 #[derive(Clone, Debug)]
-struct MPub {
-    id: u64,
-    max_loaned: usize,
-    loans: usize,
-    history: VecDeque<u64>,
-    conns: BTreeMap<u64, MConn>, // by subscriber instance id
-    seq: u64,
+pub struct MPub {
+    pub id: u64,
+    pub max_loaned: usize,
+    pub loans: usize,
+    pub history: VecDeque<u64>,
+    pub conns: BTreeMap<u64, MConn>, // by subscriber instance id
+    pub seq: u64,
 }
 #[derive(Clone, Debug)]
-struct MSub {
-    id: u64,
-    buffer: usize,
-    hist_req: usize,
+pub struct MSub {
+    pub id: u64,
+    pub buffer: usize,
+    pub hist_req: usize,
     /// queues of vanished publishers that still hold data (expired connections): (publisher id, queue)
-    expired: Vec<(u64, VecDeque<u64>)>,
+    pub expired: Vec<(u64, VecDeque<u64>)>,
     /// stamps currently held as samples, with the publisher instance they came from
-    held: Vec<(u64, u64)>,
+    pub held: Vec<(u64, u64)>,
     /// publisher instances this subscriber has attached to (ran update_connections while they existed)
-    attached: Vec<u64>,
+    pub attached: Vec<u64>,
 }
 #[derive(Clone, Debug)]
-struct Model {
-    overflow: bool,
-    history_size: usize,
-    max_borrow: usize,
-    max_buffer: usize,
-    max_pubs: usize,
-    max_subs: usize,
-    pubs: Vec<Option<MPub>>,
-    subs: Vec<Option<MSub>>,
-    next_id: u64,
-    doc_loss: u64,
+pub struct Model {
+    pub overflow: bool,
+    pub history_size: usize,
+    pub max_borrow: usize,
+    pub max_buffer: usize,
+    pub max_pubs: usize,
+    pub max_subs: usize,
+    pub pubs: Vec<Option<MPub>>,
+    pub subs: Vec<Option<MSub>>,
+    pub next_id: u64,
+    pub doc_loss: u64,
 }
 
 impl Model {
-    fn alive_pubs(&self) -> usize {
+    pub fn alive_pubs(&self) -> usize {
         self.pubs.iter().filter(|p| p.is_some()).count()
     }
-    fn alive_subs(&self) -> usize {
+    pub fn alive_subs(&self) -> usize {
         self.subs.iter().filter(|p| p.is_some()).count()
     }
     /// publisher side update: drop connections to vanished subscribers, connect to new ones (with history)
-    fn pub_update(&mut self, pi: usize) {
+    pub fn pub_update(&mut self, pi: usize) {
         let subs: Vec<(u64, usize, usize)> = self.subs.iter().flatten().map(|s| (s.id, s.buffer, s.hist_req)).collect();
         let p = self.pubs[pi].as_mut().unwrap();
         p.conns.retain(|sid, _| subs.iter().any(|s| s.0 == *sid));
@@ -150,7 +150,7 @@ impl Model {
             }
         }
     }
-    fn sub_update(&mut self, si: usize) {
+    pub fn sub_update(&mut self, si: usize) {
         let pids: Vec<u64> = self.pubs.iter().flatten().map(|p| p.id).collect();
         let s = self.subs[si].as_mut().unwrap();
         for pid in pids {
@@ -160,7 +160,7 @@ impl Model {
         }
     }
     /// returns the number of recipients
-    fn send(&mut self, pi: usize, stamp: u64) -> usize {
+    pub fn send(&mut self, pi: usize, stamp: u64) -> usize {
         self.pub_update(pi);
         let (overflow, hs) = (self.overflow, self.history_size);
         let p = self.pubs[pi].as_mut().unwrap();
@@ -185,7 +185,7 @@ impl Model {
         }
         n
     }
-    fn drop_pub(&mut self, pi: usize) {
+    pub fn drop_pub(&mut self, pi: usize) {
         let p = self.pubs[pi].take().unwrap();
         for (sid, c) in p.conns {
             if c.q.is_empty() {
@@ -203,7 +203,7 @@ impl Model {
         }
     }
     /// heads that a receive of subscriber `si` may legitimately return: (publisher id, stamp)
-    fn receivable(&self, si: usize) -> (Vec<(u64, u64)>, bool) {
+    pub fn receivable(&self, si: usize) -> (Vec<(u64, u64)>, bool) {
         let s = self.subs[si].as_ref().unwrap();
         let mut heads = Vec::new();
         let mut with_data = 0;
@@ -228,7 +228,7 @@ impl Model {
         }
         (heads, with_data > 0)
     }
-    fn take(&mut self, si: usize, pid: u64, stamp: u64) {
+    pub fn take(&mut self, si: usize, pid: u64, stamp: u64) {
         let sid = self.subs[si].as_ref().unwrap().id;
         let mut done = false;
         {
